@@ -127,6 +127,10 @@ Eval(m, e) ==
     [] e.k = "var" -> LookupVar(m, e.n)
     [] e.k = "cnt" -> I(Count(m, e.n))
     [] e.k = "ts"  -> I(IF e.n \in DOMAIN m.tof THEN m.turn - m.tof[e.n] ELSE -1)
+    \* (the same asked of the knot a variable holds: READ_COUNT(x), TURNS_SINCE(x) with x a divert target value)
+    [] e.k = "cntv" -> LET v == LookupVar(m, e.n) IN IF v.t = "div" THEN I(Count(m, v.v)) ELSE Err("not a divert target")
+    [] e.k = "tsv"  -> LET v == LookupVar(m, e.n) IN
+                       IF v.t # "div" THEN Err("not a divert target") ELSE I(IF v.v \in DOMAIN m.tof THEN m.turn - m.tof[v.v] ELSE -1)
     [] e.k = "cc"  -> I(Len(m.ch))
     [] e.k = "turns" -> I(m.turn + 1)
     [] e.k = "u" -> Unary(e.op, Eval(m, e.a))
@@ -347,6 +351,18 @@ Exec(m, s) ==
                           a == CurAct(m1) IN
                       IF BadArgs(vals) THEN Fail(m, ArgError(vals))
                       ELSE IF vals = <<>> \/ m1.err # "" THEN m1 ELSE SetAct(m1, [a EXCEPT !.temps = Bound(s.t, vals, a.temps)])
+    \* a divert / tunnel call through a variable that holds a divert target value [t |-> "div", v |-> knot]
+    \* The value names the knot ITSELF, not its first piece of content: arriving there counts a visit of the knot
+    \* wherever the divert was written - also inside the knot, where a divert by name would not count one.
+    [] s.k = "divv" -> LET v == LookupVar(m, s.x) IN
+                       IF v.t # "div" \/ ~IsKnot(v.v) THEN Fail(m, "not a divert target")
+                       ELSE LET m1 == VisitAll(m, Knot(v.v).chain, <<>>)
+                                a == CurAct(m1) IN
+                            SetAct(m1, [a EXCEPT !.fr = <<Frame(Knot(v.v).body)>>])
+    [] s.k = "tunv" -> LET v == LookupVar(m, s.x) IN
+                       IF v.t # "div" \/ ~IsKnot(v.v) THEN Fail(m, "not a divert target")
+                       ELSE LET m1 == Advance(VisitAll(m, Knot(v.v).chain, <<>>)) IN
+                            SetThread(m1, <<Act("tunnel", Knot(v.v).body)>> \o CurThread(m1))
     [] s.k = "gl"  -> Advance(Visit(m, s.label))
     [] s.k = "tun" -> IF ~IsKnot(s.t) THEN Fail(m, "tunnel target not found")
                       ELSE LET vals == ArgVals(m, s)
